@@ -12,6 +12,7 @@ import Imeta.Lemmas.XmpTotal
 import Imeta.Lemmas.ExifWalk
 import Imeta.Lemmas.BmffWalks
 import Imeta.Lemmas.QSelect
+import Imeta.Lemmas.TiffReq
 namespace Imeta.C02
 open Imeta
 
@@ -115,5 +116,31 @@ theorem C02_quickselect_terminates {α : Type} [LT α] [DecidableLT α] (sw : Ha
     (g : Hash.G k low hi a) (hf : 2 * (hi - low) + 1 < fuel) : ∃ a', Hash.qselLoop k fuel low hi a = .ok a' :=
   let ⟨a', h, _⟩ := Hash.qsel_spec sw k fuel low hi a g (Or.inl hf)
   ⟨a', h⟩
+
+/-- **Bytes requested by the TIFF header search.**  Over a bufio.Reader of any capacity S ≥ 32 (4096 in
+tiff.ScanTiffHeader) on a source that delivers what it has up to the length asked for (an in-memory reader, a file), for
+every input: the search with the request counters next to it finds what the scan model finds (the counters change
+nothing), and it asks the source for at most len + 2·S bytes — every Read that is answered in full costs what it
+delivers, the one Read that exhausts the source and the one Read that finds it empty cost at most a buffer each, and the
+search ends at the first look-ahead that fails.  With S = 4096 that is within the property's 4·len + 64 KiB. -/
+theorem C02_tiff_requested (S : Nat) (hS : 32 ≤ S) (b : Bytes) :
+    let r := Tiff.scanC S (b.length + 1) b 0 { buffered := 0, srcLeft := b.length, req := 0, reads := 0 }
+    r.1 = Tiff.scan (b.length + 1) b 0 ∧ r.2.req ≤ b.length + 2 * S := by
+  refine ⟨Tiff.scanC_outcome S hS _ b 0 _ (by simp) (by simp), ?_⟩
+  have := Tiff.scanC_req S hS (b.length + 1) b 0 { buffered := 0, srcLeft := b.length, req := 0, reads := 0 } (by simp)
+  unfold Tiff.budget at this
+  show (Tiff.scanC S (b.length + 1) b 0 { buffered := 0, srcLeft := b.length, req := 0, reads := 0 }).2.req ≤ b.length + 2 * S
+  split at this <;> simp only [] at this <;> omega
+
+theorem C02_tiff_requested_4096 (b : Bytes) :
+    (Tiff.scanC 4096 (b.length + 1) b 0 { buffered := 0, srcLeft := b.length, req := 0, reads := 0 }).2.req ≤ 4 * b.length + 65536 := by
+  have h : (Tiff.scanC 4096 (b.length + 1) b 0 { buffered := 0, srcLeft := b.length, req := 0, reads := 0 }).2.req ≤ b.length + 2 * 4096 :=
+    (C02_tiff_requested 4096 (by omega) b).2
+  omega
+
+/-- non-vacuity: 64 bytes of 'M' (no header; the search steps one byte at a time): 33 look-aheads succeed, the 34th fails,
+two Reads, 8161 bytes requested -/
+example : (Tiff.scanC 4096 65 (List.replicate 64 0x4d) 0 { buffered := 0, srcLeft := 64, req := 0, reads := 0 }) =
+    (.err .noExif, { buffered := 31, srcLeft := 0, req := 8161, reads := 2 }) := by decide +kernel
 
 end Imeta.C02
